@@ -364,6 +364,44 @@ def build(S, tier):
         history(I, out, op, I.call(I.get_class(OPS + "cell." + cls), [mx], {"mask": mask} if masked else {}), rng)
         return out
 
+    # ---- the same operation after a trip through to_dict / from_dict (restart, copy), and a default-constructed operation
+    # after ANOTHER default-constructed one had its public mask edited in place: same proposal for the same draws
+    def run_def_variant(I, cls, variant):
+        mx = I.path.fresh("max_value")
+        I.path.assume(mx.t > 0)
+        if cls == "IsotropicDeformation":
+            I.path.assume(mx.t <= 700)
+        K = I.get_class(OPS + "cell." + cls)
+        if variant == "round trip":
+            mask = Tensor((3, 3), [I.path.fresh(f"mask{i}{j}", "bool") for i in range(3) for j in range(3)], "bool")
+            ref = I.call(K, [mx], {"mask": mask})
+            op = I.call(I.getattr(K, "from_dict"), [I.call(I.getattr(ref, "to_dict"), [], {})], {})
+        else:
+            other = I.call(K, [mx], {})
+            I.setitem(I.getattr(other, "mask"), (slice(None), slice(None)), False)          # the user switches every component of THAT operation off
+            op = I.call(K, [mx], {})
+            ref = I.call(K, [mx], {"mask": Tensor((3, 3), [True] * 9, "bool")})
+        ctxA, rngA, at = make_ctx(I)
+        FA = I.call(I.getattr(ref, "calculate"), [ctxA], {})
+        ctxB, _, _ = make_ctx(I, script=[e[0] for e in rngA.elems], atoms=at)
+        FB = I.call(I.getattr(op, "calculate"), [ctxB], {})
+        return dict(FA=FA, FB=FB)
+
+    for cls in ("IsotropicDeformation", "AnisotropicDeformation", "ShapeDeformation"):
+        fq = f"{OPS}cell.{cls}.calculate"
+        for variant, clause in (("round trip", "same_proposal_after_to_dict_from_dict"), ("other default instance edited", "default_constructed_operations_do_not_share_their_mask")):
+            for i, p in enumerate(S.explore(lambda I, c=cls, v_=variant: run_def_variant(I, c, v_), f"{fq}[{variant}]")):
+                S.adopt(p, prefix=f"{cls}[{variant}]:")
+                if p.status == "unsupported":
+                    continue
+                if p.status != "return":
+                    S.prove(f"{fq}#noraise[{variant}]@{i}", False, kind="noraise", why=f"raises {p.exc!r}")
+                    continue
+                FA, FB = p.value["FA"], p.value["FB"]
+                ok = isinstance(FA, Tensor) and isinstance(FB, Tensor) and FA.shape == FB.shape == (3, 3)
+                S.prove(f"{fq}#ensures.{clause}@{i}", z3.And([R(x) == R(y) for x, y in zip(FA.data, FB.data)]) if ok else False, hyps=p.pc if ok else (), kind="ensures",
+                        why=f"{FA!r} vs {FB!r}" if not ok else "")
+
     for cls in ("IsotropicDeformation", "AnisotropicDeformation", "ShapeDeformation"):
         fq = f"{OPS}cell.{cls}.calculate"
         for masked in (False, True):
